@@ -175,9 +175,12 @@ def takeLocks(cmdName, path, lockType, nolocks=False, ntry=10, verbose=0):
 def giveLocks(locks, verbose=0):
     """Give up all locks in the provided list of (directory, file)
 
-    If the directory ends up empty, it is removed
+    If the directory ends up empty, it is removed.  Each lock is dropped from the list as it is
+    released, so that a second call with the same list (the atexit/signal handler that takeLocks
+    installs, after the command's own call) has nothing left to do
     """
-    for d, f in locks:
+    while locks:
+        d, f = locks.pop(0)
         if not os.path.isdir(d):
             continue
 
